@@ -92,9 +92,15 @@ def b_grid(tier, seed):
     rng = random.Random(9000 + seed)
     g = [("test_packet.py", Bb, 31, TEST_HDR, True) for Bb in (1, 4, 8, 16)]
     g += [("eth", 4, 14, ETH_LIKE, True), ("ip", 8, 20, IP_LIKE, True), ("ip", 4, 20, IP_LIKE, True)]
+    # corners: no byte swap on a wide bus, 24-bit bus, header of exactly one 128-bit beat, long header on 8 bit
+    g += [("test_packet.py/noswap", 8, 31, TEST_HDR, False), ("one-beat-header", 16, 16, {"a": (0, 0, 128)}, True)]
+    f, sw = rand_header(rng, 7)
+    g.append(("dw24", 3, 7, f, sw))
+    f, sw = rand_header(rng, 40)
+    g.append(("long", 1, 40, f, sw))
     nrand = 4 if tier == "quick" else 16
     for _ in range(nrand):
-        Bb = rng.choice((1, 2, 4, 8, 16))
+        Bb = rng.choice((1, 2, 3, 4, 5, 8, 16))
         H = rng.randint(Bb, 40)                  # H >= B: the FSMs need at least one header word
         f, sw = rand_header(rng, H)
         g.append(("random", Bb, H, f, sw))
@@ -134,33 +140,45 @@ def jobs(tier, seed=0):
     A(lambda: L.packetfifo_inst("PacketFIFO(3)/T2", 3, tokens=T2))
     A(lambda: L.packetfifo_inst("PacketFIFO(4,param_depth=1)/T2", 4, 1, tokens=T2))
     A(lambda: L.packetfifo_inst("PacketFIFO(2,buffered)", 2, buffered=True, tokens=T2 if quick else T3))
+    A(lambda: L.packetfifo_inst("PacketFIFO(3,param_depth=1,buffered)/T2", 3, 1, buffered=True, tokens=T2))
     B(lambda: L.packetfifo_inst("PacketFIFO(8,buffered)/8b", 8, buffered=True, dwid=8, pwid=8, alphabet=False))
     if not quick:
-        A(lambda: L.packetfifo_inst("PacketFIFO(3,param_depth=1,buffered)/T2", 3, 1, buffered=True, tokens=T2))
         B(lambda: L.packetfifo_inst("PacketFIFO(16,2,buffered)/8b", 16, 2, buffered=True, dwid=8, pwid=8,
                                     alphabet=False))
         A(lambda: L.packetfifo_inst("PacketFIFO(2)/alltokens", 2))
         A(lambda: L.packetfifo_inst("PacketFIFO(3)", 3, tokens=T4))
         A(lambda: L.packetfifo_inst("PacketFIFO(4)/T2", 4, tokens=T2))
         A(lambda: L.packetfifo_inst("PacketFIFO(3,param_depth=1)", 3, 1, tokens=T4))
-    for (pd, qd) in ((8, None), (16, 2)) if quick else ((8, None), (16, 2), (64, None), (5, 5), (32, 3)):
-        B(lambda pd=pd, qd=qd: L.packetfifo_inst("PacketFIFO(%d,%s)/8b" % (pd, qd), pd, qd, dwid=8, pwid=8,
-                                                 alphabet=False))
-    # ---- Arbiter / Dispatcher -----------------------------------------------------------------------------
-    A(lambda: L.arbiter_inst("Arbiter(2)", 2))
-    A(lambda: L.arbiter_inst("Arbiter(3)", 3))
-    A(lambda: L.dispatcher_inst("Dispatcher(2)", 2))
-    A(lambda: L.dispatcher_inst("Dispatcher(3)", 3))
-    A(lambda: L.dispatcher_inst("Dispatcher(2,one_hot)", 2, one_hot=True))
-    A(lambda: L.dispatcher_inst("Dispatcher(1,one_hot)", 1, one_hot=True))
+    fgrid = ((8, None, 8, False), (16, 2, 8, False), (5, 5, 64, False), (7, 3, 8, True), (3, 9, 128, False),
+             (6, 1, 33, True))
     if not quick:
-        A(lambda: L.arbiter_inst("Arbiter(4)", 4, data_values=(0,)))
-        A(lambda: L.dispatcher_inst("Dispatcher(3,one_hot)", 3, one_hot=True))
-        A(lambda: L.dispatcher_inst("Dispatcher(4)", 4))
-    for n in (4,) if quick else (2, 4, 7):
-        B(lambda n=n: L.arbiter_inst("Arbiter(%d)/8b" % n, n, dwid=8, alphabet=False))
-        B(lambda n=n: L.dispatcher_inst("Dispatcher(%d)/8b" % n, n, dwid=8, alphabet=False))
-        B(lambda n=n: L.dispatcher_inst("Dispatcher(%d,one_hot)/8b" % n, n, one_hot=True, dwid=8, alphabet=False))
+        fgrid += ((64, None, 8, False), (32, 3, 8, False), (9, 2, 8, True), (2, 1, 64, False), (12, 20, 8, True))
+    for (pd, qd, wid, buf) in fgrid:
+        B(lambda pd=pd, qd=qd, wid=wid, buf=buf:
+          L.packetfifo_inst("PacketFIFO(%d,%s%s)/%db" % (pd, qd, ",buffered" if buf else "", wid), pd, qd,
+                            buffered=buf, dwid=wid, pwid=wid, alphabet=False))
+    # ---- Arbiter / Dispatcher (payload = data | first << dwid) -----------------------------------------------
+    A(lambda: L.arbiter_inst("Arbiter(2)", 2))
+    A(lambda: L.arbiter_inst("Arbiter(3)", 3, payload_values=(0, 3)))
+    A(lambda: L.arbiter_inst("Arbiter(1)/plain connect", 1))            # constructor glue: masters.pop().connect
+    A(lambda: L.dispatcher_inst("Dispatcher(2)", 2))
+    A(lambda: L.dispatcher_inst("Dispatcher(3)", 3, payload_values=(0, 3)))
+    A(lambda: L.dispatcher_inst("Dispatcher(2,one_hot)", 2, one_hot=True))
+    A(lambda: L.dispatcher_inst("Dispatcher(3,one_hot)", 3, one_hot=True, payload_values=(0, 3)))
+    A(lambda: L.dispatcher_inst("Dispatcher(1,one_hot)", 1, one_hot=True))
+    A(lambda: L.dispatcher_inst("Dispatcher(1)/plain connect", 1))      # constructor glue: master.connect(slave)
+    if not quick:
+        A(lambda: L.arbiter_inst("Arbiter(3)/allpayloads", 3))
+        A(lambda: L.arbiter_inst("Arbiter(4)", 4, payload_values=(0, 3)))
+        A(lambda: L.dispatcher_inst("Dispatcher(4)", 4, payload_values=(0, 3)))
+        A(lambda: L.dispatcher_inst("Dispatcher(4,one_hot)", 4, one_hot=True, payload_values=(0, 3)))
+        A(lambda: L.dispatcher_inst("Dispatcher(5)", 5, payload_values=(0, 3)))
+    # port counts incl. non powers of two, narrow and wide (> 32 bit) payloads
+    for (n, dwid) in ((3, 8), (4, 64), (5, 8), (7, 128)) if quick else ((2, 8), (3, 8), (4, 64), (5, 8), (6, 33), (7, 128), (9, 8)):
+        B(lambda n=n, dwid=dwid: L.arbiter_inst("Arbiter(%d)/%db" % (n, dwid), n, dwid=dwid, alphabet=False))
+        B(lambda n=n, dwid=dwid: L.dispatcher_inst("Dispatcher(%d)/%db" % (n, dwid), n, dwid=dwid, alphabet=False))
+        B(lambda n=n, dwid=dwid: L.dispatcher_inst("Dispatcher(%d,one_hot)/%db" % (n, dwid), n, one_hot=True,
+                                                   dwid=dwid, alphabet=False))
     # ---- realistic Packetizer / Depacketizer / round trip, monitors armed ---------------------------------
     for (tag, Bb, H, f, sw) in b_grid(tier, seed):
         un = H % Bb != 0
@@ -262,7 +280,12 @@ def header_tie(ctx, ntables):
         vals_list = [[0] * len(mx), list(mx)] + [[rng.choice((0, m, rng.randint(0, m), 1 << rng.randrange(m.bit_length())))
                                                   for m in mx] for _ in range(6)]
         sigs = [0, (1 << (8 * H)) - 1] + [rng.getrandbits(8 * H) for _ in range(6)]
-        enc, dec = real_encode_decode(hs, vals_list, sigs)
+        try:
+            enc, dec = real_encode_decode(hs, vals_list, sigs)
+        except Exception as e:      # a changed Header may fail to elaborate: report it with the table at hand
+            dis.append({"kind": "header-exception", "fields": f, "length": H, "swap": sw,
+                        "what": "Header.encode/decode raised %s: %s" % (type(e).__name__, e)})
+            continue
         la = hs.lean_args()
         reqs = ["encode %s %s" % (la, " ".join(map(str, v))) for v in vals_list] + \
                ["decode %s %d" % (la, s) for s in sigs]
@@ -327,6 +350,14 @@ def correspond(ctx):
     dis += header_tie(ctx, 120 if ctx.tier == "quick" else 1200)
     ctx.jobs = jobs(ctx.tier, ctx.seed)
     d2, bad = run_jobs(ctx, ctx.jobs)
+    # every mode-A instance is sized to be explored completely on the unchanged tree: an exploration that does
+    # not finish means the implementation's state space has changed (or it never settles)
+    names_bad = {d.inst_name for d in d2}
+    for inst in ctx.cov.instances:
+        if inst.get("mode") == "A" and not inst.get("exhaustive") and inst["instance"] not in names_bad:
+            dis.append({"kind": "exploration-not-exhaustive", "instance": inst["instance"],
+                        "states": inst.get("states"), "note": "state limit or deadline hit before the reachable "
+                        "product of implementation and model was covered"})
     return dis + d2
 
 
@@ -507,7 +538,10 @@ def probes(ctx):
     out = []
     listed = {e.get("id") for e in ctx.known}
     for fid, fn, what in PROBES:
-        r = fn()
+        try:
+            r = fn()
+        except Exception as e:      # a probe that cannot even be driven counts as failing
+            r = (0, "probe raised %s: %s" % (type(e).__name__, e))
         fails = r is not None
         if fails and fid not in listed:
             # reported to the coordinator; until it is listed (or fixed) the witness is recorded as a note only
